@@ -153,9 +153,9 @@ Qed.
 (* templated: replace the field's own placeholder, format, clean up, split *)
 Lemma templated_ok f valsM valsS v : f_name f = n -> has_ph ws = true -> benign_text v = true ->
   bracket_inert (occ_text ws valsS v) = true ->
-  format_scalar f (render_words n ws) valsM v true = Good (map (inst_word valsS v) ws).
+  forall t, format_scalar f (render_words n ws) valsM v t = Good (map (inst_word valsS v) ws).
 Proof.
-  intros Hf Hph Hv Hin. destruct (benign_text_inv v Hv) as [Hvn Hvb].
+  intros Hf Hph Hv Hin t. destruct (benign_text_inv v Hv) as [Hvn Hvb].
   assert (Hne : nonempty v = true \/ has_ph ws = false) by (left; destruct v; [congruence|reflexivity]).
   unfold format_scalar. destruct (has_brace_words n ws Hws) as [A B]. rewrite A, B, Hph. cbn [andb].
   rewrite Hf, render_flat, (repl_pieces n valsS v) by (apply flat_nb, words_ok_nb, Hws). rewrite <- occ_flat.
@@ -182,13 +182,14 @@ Proof.
   - rewrite forallb_app, Hb. cbn. now rewrite Hv.
 Qed.
 
-Lemma scalar_ok f valsM valsS v : f_name f = n -> benign_text v = true -> inert ws valsS v = true ->
-  format_scalar f (render_words n ws) valsM v true = Good (occurrence ws valsS v).
+Lemma scalar_ok f valsM valsS v t : f_name f = n -> benign_text v = true -> inert ws valsS v = true ->
+  (has_ph ws = true \/ t = true) ->
+  format_scalar f (render_words n ws) valsM v t = Good (occurrence ws valsS v).
 Proof.
-  intros Hf Hv Hin. unfold occurrence. destruct (has_ph ws) eqn:Hph.
+  intros Hf Hv Hin Ht. unfold occurrence. destruct (has_ph ws) eqn:Hph.
   - unfold inert in Hin. rewrite Hph in Hin. cbn in Hin.
-    rewrite (templated_ok f valsM valsS v Hf Hph Hv Hin). f_equal. symmetry. apply filter_nonempty_benign.
+    rewrite (templated_ok f valsM valsS v Hf Hph Hv Hin t). f_equal. symmetry. apply filter_nonempty_benign.
     destruct (benign_text_inv v Hv) as [Hvn Hvb]. apply inst_words_benign; auto. left. destruct v; [congruence|reflexivity].
-  - now apply plain_ok.
+  - destruct Ht as [Ht|Ht]; [discriminate|]. subst t. now apply plain_ok.
 Qed.
 End Scalar.
